@@ -41,6 +41,26 @@ def minimise(spec, rec, kind, scratch, budget_s=60, max_replays=3000, known=None
             return True
         return False
 
+    # ---- earlier runs of the same process (only present when the violation needs their left-over state)
+    if cur.get("prefix_runs"):
+        i = 0
+        while i < len(cur["prefix_runs"]):
+            cand = dict(cur)
+            cand["prefix_runs"] = cur["prefix_runs"][:i] + cur["prefix_runs"][i + 1:]
+            if try_accept(cand):
+                cur = cand
+            else:
+                i += 1
+        for j, pre in enumerate(list(cur["prefix_runs"])):
+            for keep in (0, len(pre["steps"]) // 2):
+                if len(pre["steps"]) > keep:
+                    cand = dict(cur)
+                    cand["prefix_runs"] = list(cur["prefix_runs"])
+                    cand["prefix_runs"][j] = dict(pre, steps=pre["steps"][:keep])
+                    if try_accept(cand):
+                        cur = cand
+                        break
+
     # ---- ddmin over steps
     n = 2
     while len(cur["steps"]) >= 2:
